@@ -25,6 +25,11 @@ CHECKS = {
     technique="TLA+ module Constness.tla (type terms, lvalue terms, transcribed is_mutable/isModifiableLValue vs semantic ConstTarget) evaluated by TLC on the whole universe; each case rendered in every scope that can name it and type-checked by libutap",
     text="TLC checks ConstTarget=>~modifiable and twin acceptance for 24 declared sources x access paths x 16 write forms (+conditional/comma lvalues, reference arguments to functions and template instantiations) and exports the cases; libutap must reject every write whose target is const or a binder and accept the mutable twin.",
     note="Function-shaped module (states = exported cases). Trusts the rendering in checks/c12.py and that the type terms mirror the builder's composition (observed via the canonical dump)."),
+ "C13": dict(
+    category="model_checking", design_ref="DESIGN.md section 5 (C13), 2.6",
+    technique="TLA+ state machine Computable.tla (dependence chains declared link by link; semantic computability vs transcribed depends/compileTimeComputableValues) checked by TLC; every chain rendered into 14 compile-time contexts plus template-parameter instantiation chains and checked by libutap",
+    text="TLC checks Sound (not computable => rejected) and Complete (computable => accepted) after every declaration step for all chains of length<=3 (quick) / 4 (thorough) and exports them; libutap's verdict on each rendered model must equal the semantic computability; free/bound process parameters through partial instantiations are covered by 24 instantiation chains.",
+    note="Trusts TLC, the semantics in Computable.tla and the python renderer; function-local consts and external functions are outside the universe."),
 }
 NOT_APPLICABLE = {}
 PENDING_REASON = "check not built yet (work in progress; see DESIGN.md section 5 for the plan)"
